@@ -473,7 +473,11 @@ class Pass2(CompilePass):
             try:
                 self.__check_function_args(func_node, nargs, arg_types)
             except CompileError as e:
-                error = e
+                # an error found in a signature with the right number
+                # of arguments says more than "argument count mismatch"
+                if error is None or \
+                   error.code == EC.ARGUMENT_COUNT_MISMATCH:
+                    error = e
             else:
                 # all good, at least for one spec!
                 return
